@@ -146,6 +146,47 @@ func inferPatterns(body string, names []string) []string {
 		return nil
 	}
 	sort.Slice(cands, func(i, j int) bool { return cands[i].size < cands[j].size })
+	// matching-loop guard: a candidate (h ...) is dropped when the body contains a larger term with the same
+	// head that mentions bound variables (instantiating would create a new match of the candidate); the larger
+	// term is used instead
+	heads := map[string][]int{}
+	headOf := func(src string) string {
+		t := strings.TrimPrefix(src, "(")
+		if i := strings.IndexAny(t, " )"); i >= 0 {
+			return t[:i]
+		}
+		return t
+	}
+	for i, c := range cands {
+		heads[headOf(c.src)] = append(heads[headOf(c.src)], i)
+	}
+	drop := map[int]bool{}
+	for _, idxs := range heads {
+		if len(idxs) < 2 || strings.HasPrefix(headOf(cands[idxs[0]].src), "select") || strings.HasPrefix(headOf(cands[idxs[0]].src), "fa_") || headOf(cands[idxs[0]].src) == "ea" || headOf(cands[idxs[0]].src) == "sla" {
+			continue
+		}
+		// keep only the largest terms of this head
+		max := 0
+		for _, i := range idxs {
+			if cands[i].size > max {
+				max = cands[i].size
+			}
+		}
+		for _, i := range idxs {
+			if cands[i].size < max {
+				drop[i] = true
+			}
+		}
+	}
+	if len(drop) > 0 {
+		var kept []cand
+		for i, c := range cands {
+			if !drop[i] {
+				kept = append(kept, c)
+			}
+		}
+		cands = kept
+	}
 	// single terms covering everything, minimal ones first
 	var full []string
 	for _, c := range cands {
